@@ -2,7 +2,7 @@
     of expressions, scale-covariance checks of the column operators; run at
     exact rationals) and its extraction.
     ExtrOcamlBasic only: Z, positive, Q, nat stay inductive. *)
-From Dino Require Import Base.Ops Base.Sums Model.Sigma Model.Implicit Model.PrimEq Thm.Dual Model.Scaling Extract.Common.
+From Dino Require Import Base.Ops Base.Sums Model.Sigma Model.Implicit Model.PrimEq Model.Integrators Thm.Dual Model.Scaling Extract.Common.
 Require Extraction.
 Require Import ExtrOcamlBasic.
 Local Open Scope F_scope.
@@ -97,6 +97,54 @@ Definition run_C12 (cmd : Z) (ints : list Z) (arrs : list (list Q)) : option (li
                  ++ qtab K (scol (factor s d_temp_rate) (temp_adiabatic c x)) ++ [factor s d_rate * log_pressure_tendency c x]
                  ++ qtab K (scol (factor s d_accel) (combined_u c va x (rt_dry c x)))
                  ++ qtab K (scol (factor s d_accel) (combined_v c va x (rt_dry c x))))
+  (* implicit column operators (Model/Implicit.v) of a rescaled column:
+     ints = K.  arrs = [0 ls; 1 b; 2 Tref; 3 [R; kappa]; 4 div; 5 temp; 6 [lnps; lam; shift]; 7 scale]
+     -> implicit terms of the rescaled column (K + K + 1 entries), then the rescaled implicit terms *)
+  | 7%Z => let K := intn ints 0 in let s := scale_at arrs 7 in
+           let c := mkPE K (scalar arrs 3 0) (scalar arrs 3 1) (arrf arrs 0) (arrf arrs 1) (arrf arrs 2) in
+           let u := mkCol (arrf arrs 4) (arrf arrs 5) (scalar arrs 6 0) in
+           let lam := scalar arrs 6 1 in let shift := scalar arrs 6 2 in
+           let kr := factor s d_rate in let kT := factor s d_temp in let tau := factor s d_time in
+           let c' := scale_cfg kT (factor s d_gas) c in
+           let lam' := factor s (mkdim (-2) 0 0 0) * lam in
+           let Su := @vadd Q (@Col Q) ColOps (col_L K kr kT u) (col_shift shift) in
+           let lhs := col_G c' lam' Su in
+           let rhs := @vscal Q (@Col Q) ColOps (1 / tau) (col_L K kr kT (col_G c lam u)) in
+           Some (qtab K (c_div lhs) ++ qtab K (c_temp lhs) ++ [c_lnps lhs]
+                 ++ qtab K (c_div rhs) ++ qtab K (c_temp rhs) ++ [c_lnps rhs])
+  (* moist / cloud nodal terms and the vertical temperature tendency:
+     ints = K; include_vertical_advection; sparse.
+     arrs = [0 ls; 1 b; 2 Tref; 3 [R; kappa; Rv; Cpv]; 4 u; 5 v; 6 vort; 7 div; 8 temp; 9 [gx; gy; sec2; f; lap];
+             10 q; 11 qc; 12 qi; 13 gqx; 14 gqy; 15 scale] *)
+  | 8%Z => let K := intn ints 0 in let va := intb ints 1 in let sp := intb ints 2 in let s := scale_at arrs 15 in
+           let c := mkPE K (scalar arrs 3 0) (scalar arrs 3 1) (arrf arrs 0) (arrf arrs 1) (arrf arrs 2) in
+           let m := mkMoist (scalar arrs 3 2) (scalar arrs 3 3) in
+           let x := mkNCol (arrf arrs 4) (arrf arrs 5) (arrf arrs 6) (arrf arrs 7) (arrf arrs 8)
+                           (scalar arrs 9 0) (scalar arrs 9 1) (scalar arrs 9 2) (scalar arrs 9 3) in
+           let lap := scalar arrs 9 4 in
+           let q := arrf arrs 10 in let qc := arrf arrs 11 in let qi := arrf arrs 12 in
+           let gqx := arrf arrs 13 in let gqy := arrf arrs 14 in
+           let kg := factor s d_invlen in let kT := factor s d_temp in
+           let x' := scale_ncol (factor s d_vel) (factor s d_rate) kT kg x in
+           let c' := scale_cfg kT (factor s d_gas) c in
+           let m' := scale_moist (factor s d_gas) m in
+           let all (c0 : PEcfg) (m0 : Moist) (x0 : NCol) (gx0 gy0 : nat -> Q) (lap0 : Q) :=
+             qtab K (temp_vertical_tendency c0 va x0) ++ qtab K (temp_nodal_total c0 va x0)
+             ++ qtab K (temp_nodal_total_moist c0 va m0 x0 q)
+             ++ qtab K (combined_u c0 va x0 (rt_moist c0 m0 x0 q)) ++ qtab K (combined_v c0 va x0 (rt_cloud c0 m0 x0 q qc qi))
+             ++ qtab K (humidity_div_nodal c0 m0 x0 q gx0 gy0 lap0) ++ qtab K (humidity_curl_nodal c0 m0 x0 gx0 gy0)
+             ++ qtab K (humidity_geo_nodal c0 sp m0 x0 q) ++ qtab K (tracer_nodal_total c0 va x0 q)
+             ++ [qofb (tref_nonuniform c0)] in
+           let fs := [factor s d_temp_rate; factor s d_temp_rate; factor s d_temp_rate; factor s d_accel; factor s d_accel;
+                      factor s d_rate2; factor s d_rate2; factor s d_geopot; factor s d_rate] in
+           let scaled := concat (map (fun p => map (fun v => fst p * v) (snd p))
+                            (combine fs
+                               [qtab K (temp_vertical_tendency c va x); qtab K (temp_nodal_total c va x);
+                                qtab K (temp_nodal_total_moist c va m x q);
+                                qtab K (combined_u c va x (rt_moist c m x q)); qtab K (combined_v c va x (rt_cloud c m x q qc qi));
+                                qtab K (humidity_div_nodal c m x q gqx gqy lap); qtab K (humidity_curl_nodal c m x gqx gqy);
+                                qtab K (humidity_geo_nodal c sp m x q); qtab K (tracer_nodal_total c va x q)])) in
+           Some (all c' m' x' (scol kg gqx) (scol kg gqy) (kg * kg * lap) ++ scaled ++ [qofb (tref_nonuniform c)])
   | _ => None
   end.
 
